@@ -1,6 +1,7 @@
 package layer4
 
 import (
+	"bytes"
 	"encoding/json"
 	"fmt"
 	"strconv"
@@ -215,9 +216,12 @@ func ParseCaddyfileNestedMatcherSet(d *caddyfile.Dispenser) (caddy.ModuleMap, er
 // where raw must be a JSON encoding of a map, and returns the modified raw.
 // In fact, it is a reverse function for caddy.getModuleNameInline.
 func SetModuleNameInline(moduleNameKey, moduleName string, raw json.RawMessage) (json.RawMessage, error) {
-	// temporarily unmarshal json into a map of string to any
+	// temporarily unmarshal json into a map of string to any; numbers are kept as written
+	// (a float64 would round integers above 2^53, e.g. long durations in nanoseconds)
 	var tmp map[string]any
-	err := json.Unmarshal(raw, &tmp)
+	dec := json.NewDecoder(bytes.NewReader(raw))
+	dec.UseNumber()
+	err := dec.Decode(&tmp)
 	if err != nil {
 		return nil, err
 	}
